@@ -970,22 +970,28 @@ func run(c *engine.Ctx) {
 		}
 	}
 
-	// 5. larger n: 4-byte graph6 headers, Multicode up to 255
-	bigN := []int{71, 100, 127, 128, 129, 200, 254, 255, 256, 300}
+	// 5. larger n: 4-byte graph6 headers (n >= 4096 uses all three size bytes), Multicode up to 255
+	bigN := []int{71, 100, 127, 128, 129, 200, 254, 255, 256, 300, 4095, 4096, 4100}
 	for _, n := range bigN {
 		n := n
 		cnt := c.Pick(4, 16)
+		if n > 300 {
+			cnt = c.Pick(1, 3)
+		}
 		unit(c, fmt.Sprintf("large/n=%d", n), func(m *mon) {
 			for _, s := range shapes(n) {
-				if s.name == "complete" || s.name == "edgeless" || s.name == "single-edge-last" || s.name == "complete-minus-last-vertex" || s.name == "star-at-last" {
+				if s.name == "edgeless" || s.name == "single-edge-last" || s.name == "star-at-last" || (n <= 300 && (s.name == "complete" || s.name == "complete-minus-last-vertex")) {
 					m.checkGraph(s.g, s.name, fixedPick(n), opts{alts: 1, multicode: true, g6: true})
 				}
 			}
 			for i := 0; i < cnt; i++ {
 				r := c.Rand("large", n*100+i)
 				p := []float64{0.5, 0.02, 0.1, 0.9}[i%4]
+				if n > 300 {
+					p = []float64{0.002, 0.0005, 0.01}[i%3]
+				}
 				g := gen.Random(r, n, p)
-				m.checkGraph(g, fmt.Sprintf("seeded p=%.2f #%d", p, i), picker(r), opts{alts: 1, multicode: true, g6: true})
+				m.checkGraph(g, fmt.Sprintf("seeded p=%.4f #%d", p, i), picker(r), opts{alts: 1, multicode: true, g6: true})
 			}
 		})
 	}
